@@ -574,7 +574,7 @@ def auto_closure_patterns(tx, ct, lo, hi, add_insert):
                     elif ct[q].text == ':' and depth == 0 and ct[q + 1].text != ':' and ct[q - 1].text != ':':
                         e = q; break
                 toks = [ct[q].text for q in range(a, e)]
-                simple = (len(toks) == 1 and ct[a].kind == 'id') or (len(toks) == 2 and toks[0] == 'mut' and ct[a + 1].kind == 'id')
+                simple = (len(toks) == 1 and ct[a].kind == 'id' and toks[0] != '_') or (len(toks) == 2 and toks[0] == 'mut' and ct[a + 1].kind == 'id')
                 if simple:
                     continue
                 name = f'__cp{n}'; n += 1
@@ -590,6 +590,52 @@ def auto_closure_patterns(tx, ct, lo, hi, add_insert):
                     kb = next(i_ for i_, t_ in enumerate(ct) if t_.start >= ct[j].end)
                     add_insert(ct[kb].end, ' ' + text + ' ')
             k = j + 1; continue
+        k += 1
+
+
+def loop_values(tx, ct, lo, hi, types, region):
+    """R26 (automatic): `let X = loop { .. break E; .. };`  =>  `let __lvN[: T]; loop { .. { __lvN = E; break; } .. } let X = __lvN;`
+    -- the Reference's meaning of `break` with a value (Verus: "complex break expressions" are unsupported).  A fresh name
+    is used because the loop body may shadow X.  `loopval=T1,T2` on the item gives the types (needed when an invariant
+    mentions the value before it is assigned; `~` = space, `-` = none)."""
+    n = 0
+    k = lo
+    while k + 4 < hi:
+        if (ct[k].kind == 'id' and ct[k].text == 'let' and ct[k + 1].kind == 'id' and ct[k + 2].text == '=' and ct[k + 3].kind == 'id'
+                and ct[k + 3].text == 'loop' and ct[k + 4].text == '{' and ct[k + 2].end <= ct[k + 3].start):
+            name = ct[k + 1].text
+            tmp = f'__lv{n}'
+            ty = types[n].replace('~', ' ') if n < len(types) and types[n] not in ('', '-') else ''
+            n += 1
+            ob = k + 4
+            cb = rl.match_close(ct, ob)
+            if ct[cb + 1].text != ';':
+                raise SpecError(f'UNSUPPORTED: {region}: `let {name} = loop {{..}}` not followed by `;`')
+            tx.edit(ct[k].start, ct[k + 2].end, f'let {tmp}' + (f': {ty}' if ty else '') + ';', 'R26', f'loop with break value: result of `{name}` carried in `{tmp}`')
+            tx.edits.append((ct[cb].end, ct[cb].end, f' let {name} = {tmp}'))
+            q = ob + 1
+            while q < cb:
+                t = ct[q]
+                if t.kind == 'id' and t.text in ('for', 'while', 'loop'):
+                    j = q + 1
+                    while j < cb and not (ct[j].kind == 'punct' and ct[j].text == '{'):
+                        if ct[j].kind == 'punct' and ct[j].text in ('(', '['): j = rl.match_close(ct, j)
+                        j += 1
+                    q = rl.match_close(ct, j) + 1; continue       # a nested loop owns its own breaks
+                if t.kind == 'id' and t.text == 'break':
+                    if ct[q + 1].kind == 'lifetime' or ct[q + 1].text.startswith("'"):
+                        raise SpecError(f'UNSUPPORTED: {region}: labelled break in a loop with value')
+                    if ct[q + 1].text in (';', '}', ','):
+                        q += 1; continue
+                    e = q + 1
+                    while e < cb and ct[e].text not in (';', ',') and ct[e].text not in rl.CLOSE:
+                        if ct[e].text in rl.OPEN: e = rl.match_close(ct, e)
+                        e += 1
+                    tx.edit(t.start, t.end, '{ ' + tmp + ' =', 'R26', 'break with value => assignment + break')
+                    tx.edits.append((ct[e - 1].end, ct[e - 1].end, '; break; }'))
+                    q = e; continue
+                q += 1
+            k = ob + 1; continue
         k += 1
 
 
@@ -639,6 +685,44 @@ def apply_refpat(tx, ct, lo, hi, inserts, mk):
                 names.append(n)
         if names:
             inserts.append(mk(ct[ob].end, ''.join(f' let {n} = *__ref_{n};' for n in names)))
+
+
+def apply_tl_accessor_inline(tx, ct, lo, hi, accessor, fxname):
+    """R27 (thread-local accessor made explicit): `ACCESSOR(|x| BODY)` ==> `{ BODY }` when x is the name of the fn's first
+    effect-state parameter (`fx=x:T`).  For an accessor of the shape `fn sys<R>(f: impl FnOnce(&mut T) -> R) -> R { TL.with(|c| f(&mut
+    *c.borrow_mut()...)) }` the call runs BODY once on the thread-local state and returns its value; with the state passed as
+    an explicit `&mut T` parameter the block means the same.  What is dropped: the RefCell borrow and the accessor's own
+    panics (no state installed), exactly as with R5.  BODY must not contain `return` / postfix `?` at closure level (they
+    would leave the closure, not the fn): such closures have to be lifted (R5) and re-inserted (R16)."""
+    segs = accessor.split('::')
+    n_done = 0
+    k = lo
+    while k < hi:
+        j = k; ok = True
+        for si, sname in enumerate(segs):
+            if ct[j].kind != 'id' or ct[j].text != sname: ok = False; break
+            j += 1
+            if si < len(segs) - 1:
+                if ct[j].text == ':' and ct[j + 1].text == ':': j += 2
+                else: ok = False; break
+        if ok and ct[k - 1].text not in ('.', ':') and ct[j].text == '(' and ct[j + 1].text == '|' and ct[j + 2].kind == 'id' and ct[j + 3].text == '|':
+            if ct[j + 2].text != fxname:
+                raise SpecError(f'UNSUPPORTED: {tx.rel}: {accessor}(|{ct[j + 2].text}| ..): closure parameter is not the fx parameter `{fxname}`')
+            close = rl.match_close(ct, j)
+            depth = 0
+            for q in range(j + 4, close):
+                if ct[q].text == '|' and ct[q - 1].text in ('(', ',', '=', 'move', '{', ';'):
+                    depth += 1   # a nested closure starts: its own return/? are not inspected further (conservative: reject below only at depth 0)
+                if depth == 0 and ((ct[q].kind == 'id' and ct[q].text == 'return')
+                                   or (ct[q].text == '?' and (ct[q - 1].kind in ('id', 'num') or ct[q - 1].text in (')', ']', '}')))):
+                    raise SpecError(f'UNSUPPORTED: {tx.rel}: {accessor} closure contains return/?; R27 not applicable (lift it)')
+            tx.edit(ct[k].start, ct[j + 3].end, '{', 'R27', f'{accessor}(|{fxname}| BODY) inlined: thread-local state is the explicit parameter `{fxname}`')
+            tx.edit(ct[close].start, ct[close].end, '}', 'R27', f'end of inlined {accessor} closure')
+            n_done += 1
+            k = j + 4; continue
+        k += 1
+    if n_done == 0:
+        raise SpecError(f'LOST-ANCHOR: {tx.rel}: tlin={accessor} given but no {accessor}(|{fxname}| ..) found')
 
 
 def apply_tls_inline(tx, ct, lo, hi, fxcalls, inserts, mk):
@@ -693,6 +777,133 @@ def apply_tls_inline(tx, ct, lo, hi, fxcalls, inserts, mk):
         k += 1
     if n_done == 0:
         raise SpecError(f'LOST-ANCHOR: {tx.rel}: tls= given but no World::enter(&W, || ..) found')
+
+
+RUST_KW = {'as', 'break', 'const', 'continue', 'crate', 'else', 'enum', 'extern', 'false', 'fn', 'for', 'if', 'impl', 'in', 'let', 'loop',
+           'match', 'mod', 'move', 'mut', 'pub', 'ref', 'return', 'self', 'Self', 'static', 'struct', 'super', 'trait', 'true', 'type',
+           'unsafe', 'use', 'where', 'while', 'async', 'await', 'dyn'}
+
+
+def inline_hof(fn_text, spec, rel, log):
+    """R28 (higher-order helper inlined at its call sites): `hof=<file>::<callee>` on an @item.  Every call
+    `callee(ARG1, .., |p1, ..| BODY)` in the extracted fn whose closure argument is a literal is replaced by the callee's own
+    body, taken verbatim from the working tree (beta reduction):
+        { let __hof_<x1>: T1 = ARG1; ..;  <callee body with x_i renamed to __hof_<x_i> and every call `f(E1, ..)` of the closure
+                                            parameter replaced by `{ let p1 = E1; ..; BODY }`> }
+    Needed because the closures capture `&mut` state (Verus: "closures capturing a mutable reference" unsupported).  The
+    rewrite keeps the meaning iff neither text contains `return`/`?` (they would leave a different fn), the callee is not
+    recursive, and no variable bound in the callee occurs free in BODY (capture); all three are checked, else UNSUPPORTED.
+    The loops of the callee become loops of the extracted fn (numbered in textual order for @loop)."""
+    cfile, cname = spec.rsplit('::', 1)
+    citem, cimp, csrc = find_item(cfile, 'fn', cname)
+    ctx = Text(csrc, citem.decl_start, citem.end, cfile)
+    cfp = fn_parts(ctx)
+    cct = ctx.ct
+    # ---- callee parameters
+    params = []
+    k = cfp['popen'] + 1
+    while k < cfp['pclose']:
+        j = k; depth = 0
+        while j < cfp['pclose'] and not (cct[j].text == ',' and depth == 0):
+            if cct[j].kind == 'punct' and (cct[j].text in rl.OPEN or cct[j].text == '<'): depth += 1
+            elif cct[j].kind == 'punct' and (cct[j].text in rl.CLOSE or (cct[j].text == '>' and cct[j - 1].text != '-')): depth -= 1
+            j += 1
+        q = k
+        if cct[q].text == 'mut': q += 1
+        if not (cct[q].kind == 'id' and cct[q + 1].text == ':'):
+            raise SpecError(f'UNSUPPORTED: R28: parameter pattern of {cname} is not `name: T`')
+        params.append((cct[q].text, csrc[cct[q + 2].start:cct[j - 1].end]))
+        k = j + 1
+    fpar = [n for n, ty in params if re.match(r'impl\s+Fn(Mut|Once)?\b', ty)]
+    if len(fpar) != 1 or params[-1][0] != fpar[0]:
+        raise SpecError(f'UNSUPPORTED: R28: {cname} must take exactly one `impl Fn*` parameter, in last position')
+    fname = fpar[0]
+    vpars = [n for n, ty in params[:-1]]
+    body_toks = cct[cfp['bopen']:cfp['bclose'] + 1]
+    if cfp['arrow'] is not None:
+        raise SpecError(f'UNSUPPORTED: R28: {cname} returns a value')
+    for t in body_toks:
+        if (t.kind == 'id' and t.text in ('return', cname)) or t.text == '?':
+            raise SpecError(f'UNSUPPORTED: R28: body of {cname} contains return/?/recursion')
+    bound = {t.text for i_, t in enumerate(body_toks) if t.kind == 'id' and t.text not in RUST_KW and t.text not in vpars
+             and t.text != fname and body_toks[i_ - 1].text != '.'}
+
+    def render_callee(lo, hi, cl_params, cl_body):
+        """callee tokens [lo, hi) with parameter renames and the closure applications expanded"""
+        out = []; pos = cct[lo].start; i = lo
+        while i < hi:
+            t = cct[i]
+            if t.kind == 'id' and t.text == fname and cct[i + 1].text == '(' and cct[i - 1].text != '.':
+                close = rl.match_close(cct, i + 1)
+                args = []; a0 = i + 2; d = 0
+                for j in range(i + 2, close + 1):
+                    if j == close or (cct[j].text == ',' and d == 0):
+                        if j > a0: args.append((a0, j))
+                        a0 = j + 1
+                    elif cct[j].kind == 'punct' and cct[j].text in rl.OPEN: d += 1
+                    elif cct[j].kind == 'punct' and cct[j].text in rl.CLOSE: d -= 1
+                if len(args) != len(cl_params):
+                    raise SpecError(f'UNSUPPORTED: R28: closure arity differs from the call {fname}(..) in {cname}')
+                out.append(csrc[pos:t.start])
+                out.append('{ ' + ''.join(f'let {p} = {render_callee(a, b, cl_params, cl_body)}; ' for p, (a, b) in zip(cl_params, args)) + cl_body + ' }')
+                pos = cct[close].end; i = close + 1; continue
+            if t.kind == 'id' and t.text in vpars and cct[i - 1].text != '.':
+                out.append(csrc[pos:t.start]); out.append('__hof_' + t.text); pos = t.end
+            i += 1
+        out.append(csrc[pos:cct[hi - 1].end])
+        return ''.join(out)
+
+    # ---- call sites in the extracted fn
+    ftx = Text(fn_text, 0, len(fn_text), rel)
+    ct = ftx.ct
+    edits = []
+    for i, t in enumerate(ct):
+        if not (t.kind == 'id' and t.text == cname and ct[i + 1].text == '(' and ct[i - 1].text not in ('.', ':', 'fn')):
+            continue
+        close = rl.match_close(ct, i + 1)
+        args = []; a0 = i + 2; d = 0; in_cl = False
+        for j in range(i + 2, close + 1):
+            if j == close or (ct[j].text == ',' and d == 0):
+                if j > a0: args.append((a0, j))
+                a0 = j + 1
+            elif ct[j].kind == 'punct' and ct[j].text in rl.OPEN: d += 1
+            elif ct[j].kind == 'punct' and ct[j].text in rl.CLOSE: d -= 1
+            elif ct[j].text == '|' and d == 0 and j == a0:
+                # closure header `|p1, p2|`: its commas are not argument separators
+                e = j + 1
+                while ct[e].text != '|': e += 1
+                hdr = (j, e)
+                in_cl = True
+                break
+        if not in_cl or len(args) != len(vpars):
+            raise SpecError(f'UNSUPPORTED: R28: call of {cname} in {rel} does not pass a closure literal as last argument')
+        j0, e = hdr
+        cl_params = []
+        q = j0 + 1
+        while q < e:
+            if not (ct[q].kind == 'id' and ct[q + 1].text in (',', '|')):
+                raise SpecError(f'UNSUPPORTED: R28: closure parameters must be plain identifiers')
+            cl_params.append(ct[q].text); q += 2
+        b1 = close - 1
+        if ct[b1].text == ',': b1 -= 1
+        cl_body = fn_text[ct[e + 1].start:ct[b1].end]
+        for q in range(e + 1, b1 + 1):
+            if (ct[q].kind == 'id' and ct[q].text == 'return') or (ct[q].text == '?' and (ct[q - 1].kind in ('id', 'num') or ct[q - 1].text in (')', ']', '}'))):
+                raise SpecError(f'UNSUPPORTED: R28: closure passed to {cname} contains return/?')
+            if ct[q].kind == 'id' and ct[q].text in bound and ct[q - 1].text != '.' and ct[q].text not in cl_params:
+                raise SpecError(f'UNSUPPORTED: R28: `{ct[q].text}` is bound in {cname} and occurs in the closure body (capture)')
+        lets = ''.join(f'let __hof_{n}: {ty} = {fn_text[ct[a].start:ct[b - 1].end]}; ' for (n, ty), (a, b) in zip(params[:-1], args))
+        repl = '{ ' + lets + render_callee(cfp['bopen'], cfp['bclose'] + 1, cl_params, cl_body) + ' }'
+        edits.append((t.start, ct[close].end, repl))
+        log.append({'rule': 'R28', 'at': f'{rel}', 'text': fn_text[t.start:ct[close].end][:160],
+                    'note': f'call of higher-order helper {cfile}::{cname} replaced by its body (closure applied in place)'})
+    if not edits:
+        raise SpecError(f'LOST-ANCHOR: {rel}: hof={spec} given but no call `{cname}(.., |..| ..)` found')
+    out = []; pos = 0
+    for s_, e_, r_ in edits:
+        out.append(fn_text[pos:s_]); out.append(r_); pos = e_
+    out.append(fn_text[pos:])
+    return ''.join(out)
 
 
 def label_lines(text, labels, base_line, region):
@@ -772,14 +983,26 @@ class Gen:
             return self.emit_lift(it)
         item, imp, src = find_item(it.file, it.kind, it.sel)
         tx = Text(src, item.start, item.end, it.file)
+        hof_log = []
+        if it.kind == 'fn' and it.opts.get('hof'):
+            # R28: the fn text with the calls of a higher-order helper replaced by the helper's body; every later step
+            # (annotations, @loop numbering) works on this text.  Line numbers in the rewrite log then refer to it.
+            src_orig, l0_orig, l1_orig = src, rl.line_of(src, item.decl_start), rl.line_of(src, item.end)
+            src = inline_hof(src[item.start:item.end], it.opts['hof'], it.file, hof_log)
+            tx = Text(src, 0, len(src), it.file)
+            tx.log += hof_log
         strip_common(tx, extra_keep=tuple(it.opts.get('keep', '').split(',')), drop_derive=tuple(it.opts.get('noderive', '').split(',')),
                      keep_vis=(it.opts.get('vis') == 'keep'))
         # per-item renames: `ren=Old:New[,Old2:New2]` on the @item line (R7; for names that mean different
         # things in different source files, e.g. rt::Config vs config::Config both written `Config`)
-        item_ren = [tuple(x.split(':', 1)) for x in it.opts.get('ren', '').split(',') if ':' in x]
+        # (the separator is a single `:`, so that Old may be a path: `ren=Self::Item:SentRef<'a>`)
+        item_ren = [tuple(re.split(r'(?<!:):(?!:)', x, maxsplit=1)) for x in it.opts.get('ren', '').split(',') if re.search(r'(?<!:):(?!:)', x)]
         apply_renames(tx, u.renames + item_ren)
         l0, l1 = rl.line_of(src, item.decl_start), rl.line_of(src, item.end)
         sha = hashlib.sha256(src[item.start:item.end].encode()).hexdigest()[:16]
+        if hof_log:
+            l0, l1 = l0_orig, l1_orig
+            sha = hashlib.sha256(src.encode()).hexdigest()[:16]     # covers the inlined helper text too
         name = it.as_name or item.name
         if it.as_name:
             # rename the item's own name at its definition
@@ -1114,6 +1337,7 @@ class Gen:
             elif a.kind == 'split_or_arm':
                 split_anns.append(a)
         auto_closure_patterns(tx, ct, fp['bopen'] + 1, fp['bclose'], lambda pos, text: pending_inserts.append((pos, text, 'R15a')))
+        loop_values(tx, ct, fp['bopen'] + 1, fp['bclose'], it.opts.get('loopval', '').split(','), region)
         if self.inject_false == region:
             # vacuity self-test: `{ BODY }` -> `{ let __vac = { BODY }; proof { assert(false); } __vac }` (works for tail expressions too)
             pending_inserts.append((ct[fp['bopen']].end, ' proof { assert(false); } let __vac = {', 'selftest'))
@@ -1201,13 +1425,18 @@ class Gen:
                         tx.edit(ct[k].start, ct[k].end, f'await_model({fxname})', 'R24', 'await modelled as a blocking call with an assumed contract')
             apply_fx(tx, ct, fp['bopen'], body_hi, fxname, it.opts.get('fxcalls', '').split(','), pending_inserts,
                      lambda pos, text: (pos, text, 'R13'), bare=bool(it.opts.get('fxbare')))
+        if it.opts.get('tlin'):
+            # tlin=sys (with fx=k:Kernel): R27 on every `sys(|k| BODY)` of the fn
+            if not it.opts.get('fx'):
+                raise SpecError(f'{region}: tlin= needs fx=')
+            apply_tl_accessor_inline(tx, ct, fp['bopen'], body_hi, it.opts['tlin'], it.opts['fx'].split('+')[0].split(':', 1)[0])
         if it.opts.get('tls'):
             # tls=recv.name,name2 (or tls=-): R19 on every World::enter(&W, || BODY) of the fn
             apply_tls_inline(tx, ct, fp['bopen'], fp['bclose'], [x for x in it.opts['tls'].split(',') if x and x != '-'],
                              pending_inserts, lambda pos, text: (pos, text, 'R19'))
         if it.opts.get('inherent') and imp is not None and imp.trait_name:
             # the method gets an extra parameter (fx), so it can no longer be emitted inside the trait impl
-            imp_header = re.sub(r'\b(?:\w+\s*::\s*)*%s\s+for\s+' % re.escape(imp.trait_name), '', imp_header)   # also a path-qualified trait (`impl std::os::unix::fs::FileExt for File`)
+            imp_header = re.sub(r'\b(?:\w+\s*::\s*)*%s(?:<[^>]*>)?\s+for\s+' % re.escape(imp.trait_name), '', imp_header)   # also a path-qualified trait (`impl std::os::unix::fs::FileExt for File`)
             tx.log.append({'rule': 'R13', 'at': f'{it.file}:{l0}', 'text': imp.header, 'note': 'trait method emitted as inherent method (signature extended by effect state)'})
         if 'async' in it.opts or any(t.kind == 'id' and t.text == 'async' for t in ct[:fp['fn']]):
             for t in ct[:fp['fn']]:
@@ -1391,6 +1620,10 @@ class Gen:
         close = rl.match_close(ct, k)
         if ct[k + 1].text not in ('|', 'move'):
             raise SpecError(f'LOST-ANCHOR: {region}: relift: argument of <<{a.arg}>> is not a closure')
+        # automatic edits (renames, R2 drops) lying inside the replaced call are subsumed by it (the closure text is verified
+        # separately as the lifted fn, where the same automatic edits apply)
+        if not hasattr(tx, 'subsumed'): tx.subsumed = set()
+        tx.subsumed |= {(s_, e_) for (s_, e_, _r) in tx.edits if tx.start + m.start() <= s_ and e_ <= ct[close].end}
         tx.edit(tx.start + m.start(), ct[close].end, a.arg2, 'R16', f'closure call replaced by call of its lifted body: {a.arg2}')
 
     def apply_idiom(self, tx, a, region):
